@@ -172,7 +172,7 @@ func (p *Packer) Pack(src string, w io.Writer) (*Meta, error) {
 	}
 
 	// Walk the tree of files.
-	err = filepath.Walk(src, p.packWalkFn(src, src, src, tarW, meta, ignoreRules))
+	err = filepath.Walk(src, p.packWalkFn(src, src, src, tarW, meta, ignoreRules, 0))
 	if err != nil {
 		return nil, err
 	}
@@ -190,7 +190,13 @@ func (p *Packer) Pack(src string, w io.Writer) (*Meta, error) {
 	return meta, nil
 }
 
-func (p *Packer) packWalkFn(root, src, dst string, tarW *tar.Writer, meta *Meta, ignoreRules *ignorefiles.Ruleset) filepath.WalkFunc {
+// maxDereferenceDepth bounds how many dereferenced directories may be nested
+// inside one another, and how many links a chain may have, so that a cycle of
+// links outside the source directory ends in an error instead of unbounded
+// recursion.
+const maxDereferenceDepth = 40
+
+func (p *Packer) packWalkFn(root, src, dst string, tarW *tar.Writer, meta *Meta, ignoreRules *ignorefiles.Ruleset, depth int) filepath.WalkFunc {
 	return func(path string, info os.FileInfo, err error) error {
 		if err != nil {
 			return err
@@ -292,8 +298,11 @@ func (p *Packer) packWalkFn(root, src, dst string, tarW *tar.Writer, meta *Meta,
 			// link in the archive, which differs from its path on disk when
 			// the link itself sits inside a dereferenced directory.
 			if resolved.info.IsDir() {
+				if depth >= maxDereferenceDepth {
+					return fmt.Errorf("too many levels of symbolic links dereferencing %q", path)
+				}
 				linkPos := strings.Replace(path, src, dst, 1)
-				return filepath.Walk(resolved.absTarget, p.packWalkFn(root, resolved.absTarget, linkPos, tarW, meta, ignoreRules))
+				return filepath.Walk(resolved.absTarget, p.packWalkFn(root, resolved.absTarget, linkPos, tarW, meta, ignoreRules, depth+1))
 			}
 
 			// Like any other entry, the target is only archived if it is a
@@ -350,6 +359,14 @@ func (p *Packer) packWalkFn(root, src, dst string, tarW *tar.Writer, meta *Meta,
 // encounter a symbolic link chain. It returns path information about the final
 // target pointing to a regular file or directory.
 func (p *Packer) resolveExternalLink(root string, path string) (*externalSymlink, error) {
+	return p.resolveExternalLinkChain(root, path, 0)
+}
+
+func (p *Packer) resolveExternalLinkChain(root string, path string, hops int) (*externalSymlink, error) {
+	if hops > maxDereferenceDepth {
+		return nil, fmt.Errorf("too many levels of symbolic links resolving %q", path)
+	}
+
 	// Read the symlink file to find the destination.
 	target, err := os.Readlink(path)
 	if err != nil {
@@ -373,7 +390,7 @@ func (p *Packer) resolveExternalLink(root string, path string) (*externalSymlink
 
 	// Recurse if the symlink resolves to another symlink
 	if info.Mode()&os.ModeSymlink != 0 {
-		return p.resolveExternalLink(root, absTarget)
+		return p.resolveExternalLinkChain(root, absTarget, hops+1)
 	}
 
 	return &externalSymlink{
